@@ -539,8 +539,9 @@ func aliasing(r *vh.Runner, c *vh.Case, rng *vh.Rand, sample bool) {
 	pt, ad := rng.Bytes(pl), rng.Bytes(al)
 	a0, _ := kravatte.NewSANSE(key)
 	want, _ := seal(a0, nil, pt, ad)
-	pattern := rng.Intn(6)
-	names := []string{"seal dst=pt[:0]", "open dst=ct[:0]", "seal dst=prefix+append", "seal dst overlaps ad", "open dst overlaps ad", "seal dst spare capacity shifted +32"}
+	pattern := rng.Intn(8)
+	names := []string{"seal dst=pt[:0]", "open dst=ct[:0]", "seal dst=prefix+append", "seal dst overlaps ad", "open dst overlaps ad", "seal dst spare capacity shifted +32",
+		"seal in place behind a header", "open in place behind a header"}
 	r.Count("evaluations", 1)
 	r.Count("alias_calls", 1)
 	r.Count("alias:"+names[pattern], 1)
@@ -620,6 +621,35 @@ func aliasing(r *vh.Runner, c *vh.Case, rng *vh.Rand, sample bool) {
 			fail("wrong-output", nil)
 		} else if !g.canariesOK() {
 			fail("canary", nil)
+		}
+	case 6, 7: // one packet buffer: header (also the associated data), then the payload sealed / opened in place
+		h := rng.Pick(1, 8, 16, 100, 200)
+		hdr := rng.Bytes(h)
+		a1, _ := kravatte.NewSANSE(key)
+		want2, _ := seal(a1, nil, pt, hdr)
+		a, _ := kravatte.NewSANSE(key)
+		if pattern == 6 {
+			g := newGbuf(h+pl, 32, append(append([]byte{}, hdr...), pt...))
+			b := g.bytes()
+			out, pan := seal(a, b[:h], b[h:h+pl], b[:h])
+			if pan != "" {
+				fail("panic", map[string]any{"panic": pan})
+			} else if !bytes.Equal(out, append(append([]byte{}, hdr...), want2...)) {
+				fail("wrong-output", map[string]any{"hdr": h})
+			} else if !g.canariesOK() {
+				fail("canary", nil)
+			}
+		} else {
+			g := newGbuf(h+len(want2), 0, append(append([]byte{}, hdr...), want2...))
+			b := g.bytes()
+			out, err, pan := open(a, b[:h], b[h:], b[:h])
+			if pan != "" {
+				fail("panic", map[string]any{"panic": pan})
+			} else if err != nil || !bytes.Equal(out, append(append([]byte{}, hdr...), pt...)) {
+				fail("wrong-output", map[string]any{"err": fmt.Sprint(err), "hdr": h})
+			} else if !g.canariesOK() {
+				fail("canary", nil)
+			}
 		}
 	}
 	if sample {
